@@ -5,6 +5,7 @@ mod lm;
 mod p_duration;
 mod p_epoch;
 mod p_misc;
+mod p_text;
 mod rec;
 mod rng;
 
@@ -71,10 +72,11 @@ fn main() {
             let mut m = p_epoch::EM::new(&mut rec);
             p_epoch::c16_epochs(&mut m, &g, &mut rng, thorough);
         }
-        "C09" => {
-            let mut m = p_epoch::EM::new(&mut rec);
-            p_epoch::c09_fields(&mut m, &mut rng, thorough, false, true);
-        }
+        "C09" => p_text::c09(&mut rec, &lm, &mut rng, thorough),
+        "C10" => p_text::c10(&mut rec, &lm, &mut rng, thorough),
+        "C11" => p_text::c11(&mut rec, &lm, &mut rng, thorough),
+        "C13" => p_text::c13(&mut rec, &lm, &mut rng, thorough),
+        "C19" => p_text::c19(&mut rec, &lm, &mut rng, thorough),
         "C20" => {
             let g = p_epoch::EpGen::new(&lm, false);
             let mut m = p_epoch::EM::new(&mut rec);
